@@ -1243,3 +1243,186 @@ func checkCallersVTA(c *Ctx) {
 		c.check(n >= 1, rule, name+"/has-callers", c.P.fnPos(f), fmt.Sprintf("%d call edges", n), name+" has no caller in the VTA call graph (anchor moved?)")
 	}
 }
+
+// ---------- T-WAIT(graph): synchronous cross-actor calls form a DAG ----------
+
+// requestAPIs: methods that block until the receiver's loop takes a request
+// (a blocking select with a send on one of the receiver's channel fields) or
+// until its lifecycle takes a shutdown request.
+func requestAPIs(c *Ctx, rels []string) map[*ssa.Function]string {
+	out := map[*ssa.Function]string{}
+	for _, rel := range rels {
+		for _, f := range c.P.SrcFuncs(rel) {
+			if f.Signature.Recv() == nil || f.Parent() != nil {
+				continue
+			}
+			owner := typeNameOf(f.Signature.Recv().Type())
+			for _, b := range f.Blocks {
+				for _, in := range b.Instrs {
+					switch x := in.(type) {
+					case *ssa.Select:
+						if !x.Blocking {
+							continue
+						}
+						for _, st := range x.States {
+							if st.Dir == types.SendOnly && strings.HasPrefix(valPath(st.Chan), f.Params[0].Name()+".") {
+								out[f] = owner
+							}
+						}
+					case *ssa.Call:
+						m := methodName(&x.Call)
+						if (m == "Shutdown" || m == "ShutdownAsync") && recvValue(&x.Call) != nil && isLifecycleType(recvValue(&x.Call).Type()) {
+							out[f] = owner
+						}
+					}
+				}
+			}
+		}
+	}
+	return out
+}
+
+// implementorsOf: repository methods that an interface-method call may reach.
+func implementorsOf(c *Ctx, iface *types.Interface, method string) []*ssa.Function {
+	var out []*ssa.Function
+	for _, rel := range c.P.repoRels() {
+		sp := c.P.Pkg(rel)
+		if sp == nil {
+			continue
+		}
+		for _, m := range sp.Members {
+			t, ok := m.(*ssa.Type)
+			if !ok {
+				continue
+			}
+			if _, isI := t.Type().Underlying().(*types.Interface); isI {
+				continue
+			}
+			for _, T := range []types.Type{t.Type(), types.NewPointer(t.Type())} {
+				if !types.Implements(T, iface) {
+					continue
+				}
+				sel := c.P.SSA.MethodSets.MethodSet(T).Lookup(sp.Pkg, method)
+				if sel == nil {
+					// exported method: lookup with nil package
+					sel = c.P.SSA.MethodSets.MethodSet(T).Lookup(nil, method)
+				}
+				if sel != nil {
+					if fn := c.P.SSA.MethodValue(sel); fn != nil {
+						out = append(out, fn)
+					}
+				}
+				break
+			}
+		}
+	}
+	return out
+}
+
+func checkWaitForGraph(c *Ctx, runs []*runInfo) {
+	rule := "T-WAIT(graph)"
+	rels := []string{"", "join"}
+	apis := requestAPIs(c, rels)
+	// run functions by actor type
+	type actor struct {
+		name string
+		run  *ssa.Function
+	}
+	var actors []actor
+	for _, r := range runs {
+		if r.fn.Parent() == nil && r.fn.Signature.Recv() != nil {
+			actors = append(actors, actor{typeNameOf(r.fn.Signature.Recv().Type()), r.fn})
+		}
+	}
+	if f := c.P.Func("", "_ticker.run"); f != nil {
+		actors = append(actors, actor{"_ticker", f})
+	}
+	edges := map[string]map[string]string{} // A -> T -> witness
+	for _, a := range actors {
+		seen := map[*ssa.Function]bool{}
+		var visit func(f *ssa.Function, depth int, via string)
+		visit = func(f *ssa.Function, depth int, via string) {
+			if f == nil || seen[f] || f.Blocks == nil || !inRepo(f) || depth > 12 {
+				return
+			}
+			seen[f] = true
+			if owner, ok := apis[f]; ok && f != a.run {
+				if edges[a.name] == nil {
+					edges[a.name] = map[string]string{}
+				}
+				if _, dup := edges[a.name][owner]; !dup {
+					edges[a.name][owner] = via + " → " + fnName(f)
+				}
+				return // the call blocks here; what the callee's own goroutine does is that actor's business
+			}
+			for _, b := range f.Blocks {
+				for _, in := range b.Instrs {
+					call, ok := in.(*ssa.Call) // go/defer'd closures run elsewhere or at exit: only plain calls wait
+					if !ok {
+						if d, isDefer := in.(*ssa.Defer); isDefer {
+							if g := d.Call.StaticCallee(); g != nil {
+								visit(g, depth+1, via+" → "+fnName(g))
+							}
+						}
+						continue
+					}
+					cc := &call.Call
+					if g := cc.StaticCallee(); g != nil {
+						visit(g, depth+1, via+" → "+fnName(g))
+						continue
+					}
+					if cc.IsInvoke() {
+						if isLifecycleType(cc.Value.Type()) || isLogType(cc.Value.Type()) {
+							continue
+						}
+						iface, ok := cc.Value.Type().Underlying().(*types.Interface)
+						if !ok {
+							continue
+						}
+						for _, g := range implementorsOf(c, iface, cc.Method.Name()) {
+							visit(g, depth+1, via+" → "+fnName(g))
+						}
+					}
+				}
+			}
+		}
+		visit(a.run, 0, fnName(a.run))
+	}
+	// self edges and cycles
+	names := []string{}
+	for _, a := range actors {
+		names = append(names, a.name)
+	}
+	sort.Strings(names)
+	for _, a := range names {
+		for t, w := range edges[a] {
+			c.check(t != a, rule, a+"→"+t, "-", "synchronous request: "+w, "actor "+a+" calls its own request API from its own goroutine ("+w+"): it waits for a loop iteration that can never happen")
+		}
+	}
+	state := map[string]int{}
+	var cyc []string
+	var dfs func(n string, path []string)
+	dfs = func(n string, path []string) {
+		state[n] = 1
+		for t := range edges[n] {
+			if t == n {
+				continue
+			}
+			if state[t] == 1 {
+				cyc = append(append([]string{}, path...), n, t)
+				return
+			}
+			if state[t] == 0 {
+				dfs(t, append(path, n))
+			}
+		}
+		state[n] = 2
+	}
+	for _, n := range names {
+		if state[n] == 0 {
+			dfs(n, nil)
+		}
+	}
+	c.check(len(cyc) == 0, rule, "acyclic", "-", fmt.Sprintf("%d actors, wait-for edges form a DAG", len(actors)), "synchronous calls between actors form a cycle "+strings.Join(cyc, " → ")+": two loops can wait for each other forever")
+	c.floor(rule, 8, "hand-confirmed edges: controller→{_cache,_subscription,_watcher}, _watcher→_watchSession, _lister→_ticker, publisher→_subscription, filterSubscription→{_cache,_subscription}, monitor→{_cache,_subscription}")
+}
